@@ -76,7 +76,17 @@ fn uncanon_at(s: &[u8], i: &mut usize) -> Option<Primitive> {
             Primitive::Array(v)
         }
         b'{' => Primitive::Dictionary(entries(s, i)?),
-        _ => return None,      // streams cannot be built outside the crate
+        // a stream with generated data: built through the crate's own constructor (Stream::new over the bare
+        // dictionary; to_pdf_stream sets /Length to the data's length)
+        b's' => {
+            if *s.get(*i)? != b'{' { return None; }
+            *i += 1;
+            let d = entries(s, i)?;
+            let data = unhex_until(s, i, b';')?;
+            let st = Stream::new(d, data).to_pdf_stream(&mut NoUpdate).ok()?;
+            Primitive::Stream(st)
+        }
+        _ => return None,
     })
 }
 pub fn uncanon(s: &[u8]) -> Option<Primitive> {
@@ -114,7 +124,11 @@ fn canon_sorted(p: &Primitive, out: &mut String) {
             out.push(']');
         }
         Primitive::Dictionary(d) => canon_dict_sorted(d, out),
-        Primitive::Stream(s) => { out.push('s'); canon_dict_sorted(&s.info, out); out.push_str("?;"); }
+        Primitive::Stream(s) => {
+            out.push('s');
+            canon_dict_sorted(&s.info, out);
+            match s.raw_data(&NoResolve) { Ok(d) => { hexs(&d, out); out.push(';'); } Err(_) => out.push_str("?;") }
+        }
     }
 }
 fn cs(p: &Primitive) -> Vec<u8> { let mut s = String::new(); canon_sorted(p, &mut s); s.into_bytes() }
@@ -381,6 +395,50 @@ types! {
     "NumberTree<PageLabel>" => NumberTree<PageLabel>,
     "Font" => pdf::font::Font,
     "Encoding" => pdf::encoding::Encoding,
+    // every other hand-written Object/ObjectWrite pair of the crate, on its own
+    "BaseEncoding" => pdf::encoding::BaseEncoding,
+    "FontType" => pdf::font::FontType,
+    "ColorSpace" => ColorSpace,
+    "Function" => Function,
+    "CidToGidMap" => pdf::font::CidToGidMap,
+    "Pattern" => Pattern,
+    "AppearanceStreamEntry" => AppearanceStreamEntry,
+    "XObject" => XObject,
+    "ImageXObject" => ImageXObject,
+    "FormXObject" => pdf::content::FormXObject,
+    "Content" => pdf::content::Content,
+    "PdfStream" => pdf::primitive::PdfStream,
+    "PageRc" => PageRc,
+    "PagesNode" => PagesNode,
+    "NumberTree<i32>" => NumberTree<i32>,
+    "NameTree<i32>" => NameTree<i32>,
+    "i32" => i32,
+    "u32" => u32,
+    "usize" => usize,
+    "f32" => f32,
+    "bool" => bool,
+    "Name" => pdf::primitive::Name,
+    "PdfString" => PdfString,
+    "Primitive" => Primitive,
+    "Dictionary" => Dictionary,
+    "PlainRef" => PlainRef,
+    "()" => (),
+    "Ref<Dictionary>" => Ref<Dictionary>,
+    "RcRef<Dictionary>" => RcRef<Dictionary>,
+    "MaybeRef<Dictionary>" => MaybeRef<Dictionary>,
+    "MaybeRef<i32>" => MaybeRef<i32>,
+    "Lazy<Dictionary>" => Lazy<Dictionary>,
+    "Box<i32>" => Box<i32>,
+    "Option<i32>" => Option<i32>,
+    "Option<Name>" => Option<pdf::primitive::Name>,
+    "HashMap<Name,i32>" => std::collections::HashMap<pdf::primitive::Name, i32>,
+    "HashMap<Name,Option<i32>>" => std::collections::HashMap<pdf::primitive::Name, Option<i32>>,
+    "(i32,Name)" => (i32, pdf::primitive::Name),
+    "(f32,f32)" => (f32, f32),
+    "Vec<i32>" => Vec<i32>,
+    "Vec<f32>" => Vec<f32>,
+    "Vec<Name>" => Vec<pdf::primitive::Name>,
+    "Vec<u32>" => Vec<u32>,
   ],
   r: [
     "CryptDict" => pdf::crypt::CryptDict,
